@@ -309,6 +309,9 @@ class ThreadPool(object):
         self._timeout = timeout
         self.__lock = threading.RLock()
 
+        # Serializes the producers (see enqueue())
+        self.__enqueue_lock = threading.Lock()
+
         # The thread pool
         self._min_threads = min_threads
         self._max_threads = max_threads
@@ -440,15 +443,20 @@ class ThreadPool(object):
         # Prepare the future result object
         future = FutureResult(self._logger)
 
-        # Use a lock, as we might be "resetting" the queue
-        with self.__lock:
-            # Add the task to the queue
+        # One producer at a time: a task must be counted before the next
+        # producer decides if a new thread is needed
+        with self.__enqueue_lock:
+            # Add the task to the queue, without holding the pool lock: the
+            # threads need it to finish their current task, i.e. to make
+            # room when the queue is full
             self._queue.put((method, args, kwargs, future), True, self._timeout)
-            self.__nb_pending_task += 1
 
-            if self.__nb_pending_task > self.__nb_threads:
-                # All threads are taken: start a new one
-                self.__start_thread()
+            with self.__lock:
+                self.__nb_pending_task += 1
+
+                if self.__nb_pending_task > self.__nb_threads:
+                    # All threads are taken: start a new one
+                    self.__start_thread()
 
         return future
 
@@ -458,17 +466,20 @@ class ThreadPool(object):
         Returns once the queue have been emptied.
         """
         with self.__lock:
-            # Empty the current queue
-            try:
-                while True:
-                    self._queue.get_nowait()
-                    self._queue.task_done()
-            except queue.Empty:
-                # Queue is now empty
-                pass
+            while True:
+                # Empty the current queue
+                try:
+                    while True:
+                        self._queue.get_nowait()
+                        self._queue.task_done()
+                except queue.Empty:
+                    # Queue is now empty
+                    pass
 
-            # Wait for the tasks currently executed
-            self.join()
+                # Wait for the tasks currently executed, and start again if
+                # a task has been queued in the meantime
+                if self.join(0.1):
+                    break
 
     def join(self, timeout=None):
         """
